@@ -472,6 +472,8 @@ class StmtMixin:
                 self.oblige(endb, "inv.preserve", node, K.evaluate(s, ns_end),
                             label="loop%d:%s" % (ordinal, norm_text(s)), prop=tag)
             for j, a in enumerate(auto):
+                if getattr(a, "assume_only", False):
+                    continue
                 self.oblige(endb, "inv.preserve", node, a(endb), label="loop%d:auto%d" % (ordinal, j))
         self.loop_stack.pop()
         # exit path
@@ -668,6 +670,7 @@ class StmtMixin:
         ivar = lv["referencedDecl"]["name"]
         # step
         step = None
+        step_node = None
         i2 = inc
         if i2.get("kind") == "UnaryOperator" and i2.get("opcode") in ("++", "--") and strip(kids(i2)[0]).get("kind") == "DeclRefExpr" \
                 and strip(kids(i2)[0])["referencedDecl"]["name"] == ivar:
@@ -687,6 +690,14 @@ class StmtMixin:
                     k = self.static_int(b)
                     if k is not None and k > 0:
                         step = k if rhs["opcode"] == "+" else -k
+                    elif k is None and rhs["opcode"] == "+":
+                        step_node = b
+        elif i2.get("kind") == "CompoundAssignOperator" and i2.get("opcode") == "+=" and \
+                strip(kids(i2)[0]).get("kind") == "DeclRefExpr" and strip(kids(i2)[0])["referencedDecl"]["name"] == ivar \
+                and self.static_int(kids(i2)[1]) is None:
+            step_node = strip(kids(i2)[1])
+        if step is None and step_node is not None:
+            return self.strided_invariant(pre, node, c, ivar, r, step_node, body)
         if step is None:
             return out
         # i must only be modified by the increment; the bound expression must be loop-invariant
@@ -730,6 +741,53 @@ class StmtMixin:
                 return z3.And(i <= i0, z3.Or(i == i0, i >= lim + (step + 1)))
             out.append(inv)
         return out
+
+    def strided_invariant(self, pre, node, c, ivar, r, step_node, body):
+        """for (i = a; i < b; i += e) with e, b loop-invariant expressions and i only changed by the increment: the values of i are
+        a + n*e for n = 0, 1, ...  (e > 0 is an obligation at loop entry).  The ghost count n is introduced fresh wherever the
+        invariant is assumed; its preservation needs no obligation (it is how the loop counts), the range part is checked as usual."""
+        out = []
+        if c.get("opcode") not in ("<", "<="):
+            return out
+        v2, m2, c2, d2 = set(), set(), {}, set()
+        self.scan_writes(body, v2, m2, c2, d2)
+        if ivar in v2:
+            return out
+        used = set()
+        self.collect_vars(r, used)
+        self.collect_vars(step_node, used)
+        if (used & (v2 | {ivar})) or self.reads_memory(r) or self.reads_memory(step_node):
+            return out
+        if ivar not in pre.vars or not isinstance(pre.vars[ivar][0], Sc):
+            return out
+        i0 = pre.vars[ivar][0].t
+        probe = pre.copy()
+        nobs = len(self.obs)
+        names_save = dict(self.names)
+        try:
+            bv = self.rvalue(probe, r)
+            sv = self.rvalue(probe, step_node)
+        finally:
+            del self.obs[nobs:]
+            self.names = names_save
+        if not isinstance(bv, Sc) or not isinstance(sv, Sc) or sv.ct[0] != "int":
+            return out
+        step = sv.t
+        self.oblige(pre, "stride-positive", node, step > 0, label=norm_text(self.cf.text(step_node)))
+        lim = bv.t if c["opcode"] == "<" else bv.t + 1
+
+        def rng(st, i0=i0, lim=lim, step=step, ivar=ivar):
+            i = st.vars[ivar][0].t
+            return z3.And(i >= i0, z3.Or(i == i0, i <= lim + step - 1))
+
+        def stride(st, i0=i0, step=step, ivar=ivar):
+            i = st.vars[ivar][0].t
+            n = smt.fresh("n_" + ivar, smt.I)
+            return z3.And(n >= 0, i == i0 + n * step, step > 0)
+        stride.assume_only = True
+        stride.step = step
+        stride.ivar = ivar
+        return [rng, stride]
 
     def static_int(self, node):
         while node.get("kind") in ("ImplicitCastExpr", "ParenExpr"):
@@ -895,6 +953,10 @@ class StmtMixin:
                 by_region.setdefault(r1, []).append(z3.Not(z3.And(p1, p2, o1 == o2)))
         st = head.copy()
         st.pc.append(i1 != i2)
+        for a in self.auto_invariant_cache or []:
+            if getattr(a, "assume_only", False) and a.ivar == ivar:
+                # i1 = a + n1*e, i2 = a + n2*e with e > 0 and n1 != n2: the values differ by at least e
+                st.pc.append(z3.Or(i1 - i2 >= a.step, i2 - i1 >= a.step))
         for r, goals in sorted(by_region.items(), key=lambda kv: kv[0].id):
             self.oblige(st, "omp-drf", node, z3.And(*goals) if len(goals) > 1 else goals[0],
                         label="%s:%s" % (tag, r.name))
